@@ -5,6 +5,11 @@ HERE = os.path.dirname(os.path.dirname(os.path.abspath(__file__)))
 
 TECH = "deterministic simulation with fault injection"
 CLAIMED = {
+ "C07": dict(
+   level="exploration", design="5/C07, 3.4",
+   text="Seeded search over thread interleavings: the real Scheduler.run loop, the real select-hub thread (both hub modes) and 2-3 foreign threads are real Python threads of which the engine lets exactly one run, pre-empting at every traced source line of recoco.py and at every Lock/Event/Queue/select (random schedules with switch probability 0.05-0.6 and PCT priority schedules of depth 1-4). Workloads: call-later hand-off, concurrent wake of a blocked task, synchronized sections, cooperative locks. Oracles: exactly once, on the scheduler thread, per-thread order, zero virtual latency (lost wake-ups show up as a 2 s poll rescue), queued at most once at every yield point, no task step inside a section, lock exclusion/hand-over.",
+   note="Line granularity: races inside one source line or inside C code are not explored; threading primitives are engine-controlled stand-ins with the semantics of threading.Lock/Event and queue.Queue.",
+   technique=TECH + ": controlled-thread interleaving search (baton passing, sys.settrace pre-emption points, virtual time)"),
  "C10": dict(
    level="fault_enumeration", design="5/C10",
    text="Seeded fault injection into a valid byte stream on one victim connection (header length 0..len+8, type 0..255, version, any aligned 16-bit body word, truncation+EOF at any offset, byte flips, random streams) while sibling connections carry known-good traffic, on the controller side (real task loop) and the switch side (two real switches on one IO loop). Oracle: deterministic traced-line termination budget, loop tasks alive, siblings answered exactly, fresh connection handshakes, every delivered/answered message is a declared-length frame of the damaged stream in order, declared valid echo requests answered unless the connection closed.",
